@@ -202,3 +202,78 @@ func vxH_C09_seekAfterSkip() {
 	vxAssert("seek-nothing-skipped", vxNoLiveBetween(false, X, true, ck, func(k vxKey) bool { return vxKeyLE(X, k) }, layers...))
 	it.Close()
 }
+
+func init() { vxRegister("vxH_C09_seeks", vxH_C09_seeks) }
+
+// vxH_C09_seeks: two consecutive SeekTo calls (any mixture of forward,
+// backward, equal, beyond the end) on (a) a single two-operation segment
+// with tombstones (the iteratorSingle fast path) or (b) two one-operation
+// segments (the heap iterator), in the thorough tier with a start bound; after each
+// seek Current is the smallest live in-range key >= max(x, start).
+func vxH_C09_seeks() {
+	kl, vl := 1, 1
+	opts := &CollectionOptions{}
+	ss := &segmentStack{options: opts, refs: 1}
+	var layers [][]vxEnt
+	if vxChoose(2) == 0 {
+		ents := vxNewEnts(2, kl, vl, vxOpsSetDel)
+		layers = append(layers, ents)
+		ss.a = append(ss.a, vxSegOf(ents))
+	} else {
+		for s := 0; s < 2; s++ {
+			ents := vxNewEnts(1, kl, vl, vxOpsSetDel)
+			layers = append(layers, ents)
+			ss.a = append(ss.a, vxSegOf(ents))
+		}
+	}
+	DefaultNaiveSeekToMaxTries = 1
+	hasS := false
+	var S vxKey
+	var sb []byte
+	if vxTier() == 1 {
+		hasS, S, sb = vxOptKey(kl)
+	}
+	it, err := ss.StartIterator(sb, nil, IteratorOptions{})
+	vxAssert("start-ok", err == nil)
+	inRange := func(k vxKey) bool {
+		if hasS {
+			return vxKeyLE(S, k)
+		}
+		return true
+	}
+	for n, tag := range []string{"seek1", "seek2"} {
+		_ = n
+		X := vxNewKey(kl)
+		serr := it.SeekTo(vxKeyBytes(X))
+		vxAssert(tag+"-err", serr == nil || serr == ErrIteratorDone)
+		lb := X
+		if hasS {
+			useS := vxKeyLess(X, S)
+			for j := 0; j < vxKL; j++ {
+				lb.b[j] = vxIteU8(useS, S.b[j], X.b[j])
+			}
+			lb.n = vxIteInt(useS, S.n, X.n)
+		}
+		k, v, cerr := it.Current()
+		if cerr == ErrIteratorDone {
+			ok := true
+			for _, ents := range layers {
+				for _, e := range ents {
+					ok = vxAnd(ok, vxImplies(vxAnd(inRange(e.k), vxKeyLE(lb, e.k)), vxNot(vxRefGet(e.k, layers...).live)))
+				}
+			}
+			vxAssert(tag+"-done-means-exhausted", ok)
+			vxAssert(tag+"-done-consistent", serr == ErrIteratorDone)
+			continue
+		}
+		vxAssert(tag+"-current-ok", cerr == nil)
+		vxAssert(tag+"-key-not-nil", k != nil || len(k) == 0)
+		vxObserveBytes(tag+"-key", k)
+		ck := vxKeyOf(k)
+		ref := vxRefGet(ck, layers...)
+		vxAssert(tag+"-in-range-and-at-or-after", vxAnd(inRange(ck), vxKeyLE(lb, ck)))
+		vxAssert(tag+"-live-with-value", vxAnd(ref.live, vxValIs(v, ref.v)))
+		vxAssert(tag+"-nothing-skipped", vxNoLiveBetween(false, lb, true, ck, func(k vxKey) bool { return vxAnd(inRange(k), vxKeyLE(lb, k)) }, layers...))
+	}
+	it.Close()
+}
